@@ -462,6 +462,19 @@ impl<'a> Machine<'a> {
     // ------------------------------------------------------------------ PRINT
 
     fn put(&mut self, dev: Dev, item: OutItem) -> R<()> {
+        if let OutItem::Num(t, x) = &item {
+            // R14: the long forms of printed numbers are not fixed by any property
+            let digits = format!("{}", x.abs()).bytes().filter(|c| c.is_ascii_digit()).collect::<Vec<u8>>();
+            let sig = digits.iter().skip_while(|c| **c == b'0').count();
+            let limit = match t {
+                Ty::Single => 7,
+                Ty::Double => 15,
+                _ => 20,
+            };
+            if sig > limit {
+                return inexact("R14: printed number with more significant digits than its type shows");
+            }
+        }
         let width = match &item {
             OutItem::Bytes(b) => b.len(),
             OutItem::Num(_, x) => {
